@@ -4,7 +4,7 @@ CONSTANTS
   WRun = {}
   WTerm = {}
   QCap = 4
-  MaxStart = 2
+  MaxStart = 1
   ParentCancels = TRUE
   Presents = {{"start","run","stop"}}
   RunModes = {"any"}
